@@ -120,12 +120,7 @@ def run_step(fs, proc, step, hist):
     hist["steps"].append(rec)
     try:
         if entry == "cli":
-            old = sys.stderr
-            sys.stderr = io.StringIO()
-            try:
-                proc.nc.main(cli_argv(o, inp, out, dump))
-            finally:
-                sys.stderr = old
+            proc.nc.main(cli_argv(o, inp, out, dump))
         elif entry == "files":
             proc.af.anonymize_files(inp, out, **api_kwargs(o, dump))
         elif entry in ("file", "io"):
@@ -206,6 +201,9 @@ def run_proc(fs, pspec, share=None):
     fs.new_process(knobs=pspec.get("knobs"), faults=pspec.get("faults"))
     proc = share if share is not None else SimProcess(pspec.get("knobs"))
     hist = {"steps": [], "outcome": "ok"}
+    cap_out, cap_err = io.StringIO(), io.StringIO()
+    old_out, old_err = sys.stdout, sys.stderr
+    sys.stdout, sys.stderr = cap_out, cap_err
     try:
         with fs, proc:
             for item in pspec.get("pre", []):
@@ -219,6 +217,9 @@ def run_proc(fs, pspec, share=None):
         hist["outcome"] = "crash"
     except KeyboardInterrupt:
         hist["outcome"] = "interrupt"
+    finally:
+        sys.stdout, sys.stderr = old_out, old_err
+    hist["stdout"], hist["stderr"] = cap_out.getvalue(), cap_err.getvalue()
     hist["logs"] = list(proc.log.records)
     proc.log.records = []
     hist["trace"] = list(fs.trace)
@@ -245,7 +246,8 @@ def run_world(world):
 def public_hist(h):
     """The observable part of a process history (for digests)."""
     return {"steps": h["steps"], "outcome": h["outcome"], "logs": h["logs"], "trace": h["trace"],
-            "handed": h["handed"], "faults": h["faults"], "snap": h["snap"]}
+            "handed": h["handed"], "faults": h["faults"], "snap": h["snap"], "stdout": h.get("stdout", ""),
+            "stderr": h.get("stderr", "")}
 
 
 def stream_twin(knobs, opts, pieces):
